@@ -67,6 +67,10 @@ def gen():
         depth_cfg_tokio = None
         for i, line in enumerate(lines):
             if "#[cfg(test)]" in line:
+                nxt = lines[i + 1].strip() if i + 1 < len(lines) else ""
+                if nxt.startswith("mod ") and nxt.endswith(";"):
+                    guarded_next = True  # `#[cfg(test)] mod tests;` — only that line is test code
+                    continue
                 in_test = True
             if in_test:
                 continue
@@ -88,6 +92,10 @@ def gen():
                     new = code[:m.start()] + re.sub(pat, rep, m.group(0)) + code[m.end():]
                     if new != line:
                         out.append({"file": f, "line": i + 1, "op": f"{pat.strip()} -> {rep.strip()}", "old": line, "new": new, "props": props})
+            # statement deletion: a single-line call / assignment statement
+            t = code.strip()
+            if re.match(r"^[a-z_][\w\.]*(\(|\.[a-z_]\w*\(| [-+*]?= ).*;$", t) and not re.match(r"^(let|return|break|continue|use|pub|mod|type|const|static|panic|unreachable|assert)\b", t):
+                out.append({"file": f, "line": i + 1, "op": "delete statement", "old": line, "new": line[: len(line) - len(line.lstrip())] + ";", "props": props})
             if '"' not in code:
                 for m in NUM.finditer(code):
                     n = int(m.group(1))
